@@ -344,6 +344,88 @@ let run_linebuf u line =
                (if ev = [] then "_" else String.concat "," (List.map fmt_event ev))) rs)
      | _ -> failwith "bad linebuf head")
 
+(* ---------- stream: tty (interactive reads) ---------- *)
+let decode_chunk (bytes : int list) : inchar list =
+  (* strict UTF-8; an undecodable byte becomes Bad (the read ends there) *)
+  let rec go bs acc =
+    match bs with
+    | [] -> List.rev acc
+    | _ ->
+      (match decode1 (List.map n_of_int bs) with
+       | Some (c, rest) -> go (List.map int_of_n rest) (Ch c :: acc)
+       | None -> go (List.tl bs) (Bad :: acc)) in
+  go bytes []
+
+let parse_tkey (t : string) : key =
+  let m c a sh = { m_ctrl = c; m_alt = a; m_shift = sh } in
+  let pre p = String.length t > 2 && String.sub t 0 2 = p in
+  let hex () = n_of_int (int_of_string ("0x" ^ String.sub t 2 (String.length t - 2))) in
+  if pre "c:" then (KChar (hex ()), m false false false)
+  else if pre "C:" then (KChar (hex ()), m true false false)
+  else if pre "M:" then (KChar (hex ()), m false true false)
+  else match t with
+    | "F5" -> (KF (nat_of_int 5), m false false false)
+    | "F6" -> (KF (nat_of_int 6), m false false false)
+    | "PageUp" -> (KPageUp, m false false false)
+    | "PageDown" -> (KPageDown, m false false false)
+    | _ -> failwith ("key " ^ t)
+
+let parse_tcmd (t : string list) : cmd =
+  match t with
+  | ["yankpop"] -> CYankPop | ["accept"] -> CAcceptLine | ["newline"] -> CNewline | ["abort"] -> CAbort
+  | ["bol"] -> CMove MBeginningOfLine | ["upcase"] -> CUpcaseWord | ["undo"] -> CUndo (nat_of_int 1)
+  | ["insert"; s] -> CInsert (nat_of_int 1, parse_str s)
+  | ["hsb"] -> CHistorySearchBackward | ["hsf"] -> CHistorySearchForward
+  | ["killwl"] -> CKill MWholeLine | ["noop"] -> CNoop
+  | _ -> failwith ("cmd " ^ String.concat " " t)
+
+let fmt_outcome = function
+  | OLine s -> "line:" ^ fmt_str s | OEof -> "eof" | OInterrupted -> "int" | OInvalidData -> "invalid"
+  | OValidatorError -> "verr" | OHangup -> "hangup" | OPanic -> "panic" | OOutOfFuel -> "MODEL-OUT-OF-FUEL"
+
+let fmt_obs (o : observation) =
+  Printf.sprintf "%s %d %s %d %d %s" (fmt_str o.o_line) (int_of_nat o.o_pos)
+    (match o.o_mode with IMCommand -> "c" | IMInsert -> "i" | IMReplace -> "r")
+    (int_of_nat o.o_n) (if o.o_positive then 1 else 0)
+    (match o.o_hint with None -> "none" | Some h -> fmt_str h)
+
+let run_tty u line =
+  match String.index_opt line '|' with
+  | None -> failwith "tty: missing |"
+  | Some k ->
+    let head = String.sub line 0 k and rest = String.sub line (k + 1) (String.length line - k - 1) in
+    let kv = List.filter_map (fun f ->
+        match String.index_opt f '=' with
+        | Some i -> Some (String.trim (String.sub f 0 i), String.trim (String.sub f (i + 1) (String.length f - i - 1)))
+        | None -> None) (String.split_on_char ';' head) in
+    let get k d = try List.assoc k kv with Not_found -> d in
+    let strs v = if v = "" || v = "_" then [] else List.map parse_str (String.split_on_char ',' v) in
+    let mode = if get "mode" "emacs" = "vi" then Vi else Emacs in
+    let ct = if get "completion" "circular" = "list" then CTList else CTCircular in
+    let timeout_none = get "timeout" "none" = "none" in
+    let cols = nat_of_int (int_of_string (get "cols" "80")) in
+    let helper = get "helper" "0" = "1" in
+    let vk = match get "validator" "none" with "brackets" -> VKBrackets | "script" -> VKScript | _ -> VKNone in
+    let binds = List.filter_map (fun (k, v) ->
+        if k = "bind" then
+          (match words v with
+           | ks :: c -> Some (List.map parse_tkey (String.split_on_char ',' ks), parse_tcmd c)
+           | _ -> None)
+        else None) kv in
+    let cfg = mk_config mode ct timeout_none cols helper (strs (get "cands" "")) (strs (get "hints" "")) vk binds in
+    let prompt = parse_str (get "prompt" "-") in
+    let initial = match get "initial" "" with
+      | "" -> None
+      | v -> (match String.split_on_char ',' v with [l; r] -> Some (parse_str l, parse_str r) | _ -> None) in
+    let hist = strs (get "hist" "") in
+    let reads = nat_of_int (int_of_string (get "reads" "1")) in
+    let chunks = List.map (fun c -> decode_chunk (List.map int_of_n (parse_bytes c))) (words rest) in
+    let rs = run_reads u cfg prompt initial hist (kr_new (nat_of_int 60)) { in_cur = []; in_rest = chunks } reads in
+    String.concat " ## " (List.map (fun r ->
+        Printf.sprintf "O=%s K=%s W=%s" (fmt_outcome r.rr_outcome)
+          (if r.rr_obs = [] then "_" else String.concat ";" (List.map fmt_obs r.rr_obs))
+          (fmt_str (List.concat r.rr_out))) rs)
+
 (* ---------- main ---------- *)
 let () =
   let stream = Sys.argv.(1) in
@@ -358,6 +440,7 @@ let () =
     | "direct" -> run_direct u
     | "compl" -> run_compl u
     | "linebuf" -> run_linebuf u
+    | "tty" -> run_tty u
     | s -> failwith ("unknown stream " ^ s) in
   (try
      while true do
